@@ -1,0 +1,71 @@
+//go:build verif
+
+package pypi
+
+import "deps.dev/util/resolve/pypi/internal"
+
+// VerifMarkerNode is a structural dump of a parsed PEP 508 marker. It is only
+// available with the "verif" build tag and is used by an external verification
+// harness to compare the parser's result with a model of it.
+type VerifMarkerNode struct {
+	Kind string // "expr", "and" or "or"
+
+	// Fields of an "expr" node.
+	Op            int // the markerOp as a number
+	LName, LValue string
+	LVersion      bool // left.version != nil
+	RName, RValue string
+	RVersion      bool // right.version != nil
+	Constraint    bool // constraint != nil
+
+	// Fields of "and" / "or" nodes.
+	Left, Right *VerifMarkerNode
+}
+
+func verifDump(m marker) *VerifMarkerNode {
+	switch x := m.(type) {
+	case markerExpr:
+		return &VerifMarkerNode{
+			Kind: "expr", Op: int(x.op),
+			LName: x.left.name, LValue: x.left.value, LVersion: x.left.version != nil,
+			RName: x.right.name, RValue: x.right.value, RVersion: x.right.version != nil,
+			Constraint: x.constraint != nil,
+		}
+	case markerAnd:
+		return &VerifMarkerNode{Kind: "and", Left: verifDump(x.left), Right: verifDump(x.right)}
+	case markerOr:
+		return &VerifMarkerNode{Kind: "or", Left: verifDump(x.left), Right: verifDump(x.right)}
+	}
+	return &VerifMarkerNode{Kind: "unknown"}
+}
+
+// VerifParseMarkerTree parses a marker, evaluates it for the given extras
+// against the fixed target environment and returns its structure.
+func VerifParseMarkerTree(raw string, extras map[string]bool) (ok bool, val bool, tree *VerifMarkerNode) {
+	m, err := parseMarker(raw)
+	if err != nil {
+		return false, false, nil
+	}
+	return true, m.Eval(extras), verifDump(m)
+}
+
+// VerifMarkerOpString is markerOp.String for the numbered operator.
+func VerifMarkerOpString(op int) string { return markerOp(op).String() }
+
+// VerifMarkers returns a copy of the fixed target environment.
+func VerifMarkers() map[string]string {
+	out := make(map[string]string, len(internal.Markers))
+	for k, v := range internal.Markers {
+		out[k] = v
+	}
+	return out
+}
+
+// VerifEnvironmentVariableNames returns the names the marker parser knows.
+func VerifEnvironmentVariableNames() []string {
+	var out []string
+	for k := range environmentVariables {
+		out = append(out, k)
+	}
+	return out
+}
